@@ -87,7 +87,7 @@ LEAVES = [0, 1, 2, 3, 7, 10, 10 ** 20]
 
 
 def exhaustive_small():
-    leaves = [("lit", n) for n in LEAVES] + [("sci", 3, -2), ("sci", 5, 3)]
+    leaves = [("lit", n) for n in LEAVES] + [("sci", 3, -2), ("sci", 5, 3), ("sci", 10, -1), ("sci", 2500, -2), ("sci", 0, -5)]
     d1 = []
     for op in BIN:
         for a in leaves:
@@ -126,7 +126,21 @@ def rand_tree(rng, depth):
     return ("un", rng.choice(list(UN)), rand_tree(rng, depth - 1))
 
 
+def float_twin(text):
+    """the same expression over float operands (2 -> 2.0): evaluated first, in the same process, so that
+    any value-keyed cache or shared state filled by float arithmetic is in place when the exact expression runs"""
+    import re
+    return re.sub(r"(?<![\w.])(\d+)(?![\w.])", r"\1.0", text)
+
+
 def impl_case(text):
+    try:
+        if len(text) < 200:
+            C.observe(float_twin(text))
+    except C.CaseTimeout:
+        raise
+    except Exception:
+        pass
     return C.observe(text)
 
 
